@@ -350,10 +350,12 @@ class C06Client(Episode):
         orig_arrive = cl.socket._arrive
 
         self.arrivals = []
+        self.arrived_msgs = []
 
         def arr(msg):
             self.last_arrival = w.sim.now
             self.arrivals.append(w.sim.now)
+            self.arrived_msgs.append((w.sim.now, msg))
             return orig_arrive(msg)
         cl.socket._arrive = arr
         res = exc = None
@@ -395,10 +397,12 @@ class C06Client(Episode):
         orig_arrive = cl.socket._arrive
 
         self.arrivals = []
+        self.arrived_msgs = []
 
         def arr(msg):
             self.last_arrival = w.sim.now
             self.arrivals.append(w.sim.now)
+            self.arrived_msgs.append((w.sim.now, msg))
             return orig_arrive(msg)
         cl.socket._arrive = arr
         fut = cl.call({'command': 'numprocesses',
@@ -461,9 +465,25 @@ class C06Client(Episode):
                 self.viol('client_wrong_error', '%s call raised %r' %
                           (kind, exc), once=cid)
             # frames reaching the socket in the very instant of the timeout
-            # were not seen by the client any more
+            # were not seen by the client any more (the timer fires a few
+            # loop iterations before call() is seen to have returned, and a
+            # frame needs a few iterations from the socket to the coroutine)
             sc = self.cfg.get('step_cost', 0.0)
-            seen = [a for a in self.arrivals if a < t1 - 1e-9 - 6 * sc]
+            slack = 1e-9 + 12 * sc
+            for (ta, m) in self.arrived_msgs:
+                try:
+                    r = json.loads(m)
+                except ValueError:
+                    continue
+                if isinstance(r, dict) and r.get('id') == cid and \
+                        cid is not None and not r.get('injected') and \
+                        ta < t1 - slack:
+                    self.viol('client_lost_own_reply',
+                              '%s call reported a timeout at +%.4f s, its own '
+                              'reply had reached the socket at +%.4f s'
+                              % (kind, t1 - t0, ta - t0), once=cid,
+                              client=kind)
+            seen = [a for a in self.arrivals if a < t1 - slack]
             ref = max([t0] + seen)
             if t1 < ref + T - 1e-6:
                 self.viol('client_timeout_too_early',
